@@ -17,7 +17,7 @@ def within(codec, k, r, ln, m, N1, seed):
 class P(StreamProperty):
     pid = 'C09'
     module = 'OpenFecVerif.Props.C09Total'
-    theorems = ['C09_accept_iff', 'C09_limits', 'C09_reject_keeps_unconfigured', 'C09_bad_esi_rejected', 'C09_ldpc_construction_returns', 'C09_accept_iff_limits', 'C09_generic_validation', 'C09_rs8_validation', 'C09_rs2m_validation', 'C09_ldpc_validation', 'C09_2d_validation', 'C09_limits_are_the_code', 'C09_limits_rs2m', 'C09_build_validation', 'C09_decode_validation', 'C09_decoder_calls_validation', 'C09_recv_guard_is_the_code']
+    theorems = ['C09_accept_iff', 'C09_limits', 'C09_reject_keeps_unconfigured', 'C09_bad_esi_rejected', 'C09_ldpc_construction_returns', 'C09_accept_iff_limits', 'C09_generic_validation', 'C09_rs8_validation', 'C09_rs2m_validation', 'C09_ldpc_validation', 'C09_2d_validation', 'C09_limits_are_the_code', 'C09_limits_rs2m', 'C09_build_validation', 'C09_decode_validation', 'C09_decoder_calls_validation', 'C09_recv_guard_is_the_code', 'C09_counters_fit_16_bits']
     rule = ('(a) parameter grid on the real library: for each codec every field in {0,1,2,limit-1,limit,limit+1,2^16,2^31-1,2^31,2^32-1} (others valid), every m in 0..17 and values congruent to 4 and 8 modulo 32, 256, 4096 and 32768, N1 in 0..255 boundary values, '
             'seed boundary values; each accepted configuration is followed by a full encode/decode cycle; (b) every single-argument corruption of otherwise valid calls (NULL session, NULL buffer, NULL table, '
             'ESI = n, n+1, 2^32-1, build ESI < k, wrong role; submissions and repair requests on sessions that have no parameters yet or whose parameters were rejected, every codec and role) followed by a check that the session still works; oracle: OK <=> inside the advertised limits, accepted => decodes correctly, corrupted call => error status; '
